@@ -197,7 +197,7 @@ def run(ck):
     sp = os.path.join(ck.workdir, "script.ndjson")
     spz = os.path.join(ck.workdir, "script.nz.ndjson")
     write_script(sp, ops)
-    write_script(spz, nz_filter(ops))
+    write_script(spz, [dict(o, kind="static") if o.get("op") == "xs.new" and o.get("kind") == "ed" else o for o in nz_filter(ops)])
     traces = []
     for b, t, f in specs:
         cid = cfg_id(b, t, "release", f)
